@@ -2,11 +2,6 @@ import Driver.Proto
 import Model.RBTree
 open Proto RB
 
-/-- compare modes of a history: `plain` = integer order, `div10` = order of `k / 10` (Go's truncating division), so
-    that distinguishable keys compare equal -/
-def cmpOf (div10 : Bool) (a b : Int) : Ordering :=
-  if div10 then compare (a.tdiv 10) (b.tdiv 10) else compare a b
-
 structure DState where
   div10 : Bool
   tree : Tree Int Int
